@@ -168,6 +168,13 @@ func (x *Exec) oblige(st *State, kind string, pos token.Pos, goal string, tag st
 	base := fmt.Sprintf("%s#%s", x.key, kind)
 	if tag != "" {
 		base += "[" + tag + "]"
+		if kind == "ensures" && pos.IsValid() {
+			// one obligation per path: a path is identified by the return
+			// statement it ends in (its text, and its rank among the
+			// function's return statements with the same text), so that
+			// reordering branches elsewhere does not renumber it
+			base += "@" + txt + x.returnRank(pos, txt)
+		}
 	} else {
 		base += ":" + txt
 	}
@@ -205,6 +212,34 @@ func (x *Exec) oblige(st *State, kind string, pos token.Pos, goal string, tag st
 	default:
 		x.c.assume(implies(st.guard, goal))
 	}
+}
+
+// returnRank: "" for the first return statement (in source order) of the
+// function whose line reads txt, "~k" for the k-th.
+func (x *Exec) returnRank(pos token.Pos, txt string) string {
+	syn := x.root().fn.Syntax()
+	if syn == nil {
+		return ""
+	}
+	line := x.p.fset.Position(pos).Line
+	seen := map[int]bool{}
+	rank := 1
+	ast.Inspect(syn, func(n ast.Node) bool {
+		if r, ok := n.(*ast.ReturnStmt); ok {
+			l := x.p.fset.Position(r.Pos()).Line
+			if l < line && !seen[l] {
+				seen[l] = true
+				if _, t := x.v.srcLine(x.p, r.Pos()); t == txt {
+					rank++
+				}
+			}
+		}
+		return true
+	})
+	if rank == 1 {
+		return ""
+	}
+	return fmt.Sprintf("~%d", rank)
 }
 
 func (x *Exec) root() *Exec {
